@@ -73,6 +73,11 @@ fn main() {
                             println!("WRONG-GRADIENT {:?}", g);
                             return 5;
                         }
+                        // the release of the graph is C18's business (probe mode "drop"): leave it to process exit
+                        std::mem::forget(c);
+                        println!("dropped");
+                        println!("OK gradient");
+                        return 0;
                     }
                     drop(c);
                     println!("dropped");
